@@ -200,7 +200,8 @@ pub fn run(tier: Tier) -> i32 {
                 }
             }
             // header dictionary sizes that are not a multiple of 16 / not a power of two: a copy just beyond them
-            for hd in [4097u32, 5000, 6145] {
+            // (... and large ones that are not a whole number of MiB: 4 MiB + 1, 5 000 000, 12 345 678 in the thorough tier)
+            for hd in tier.pick(vec![4097u32, 5000, 6145, (1 << 22) + 1, 5_000_000], vec![4097u32, 5000, 6145, (1 << 22) + 1, 5_000_000, 12_345_678]) {
                 let target = hd as usize + 7;
                 let mut p: Vec<Sym> = (0..64u32).map(|b| Sym::L(((b * 67 + 3) & 0xFF) as u8)).collect();
                 let mut produced = 64;
@@ -212,7 +213,7 @@ pub fn run(tier: Tier) -> i32 {
                     p.push(Sym::L((produced * 3) as u8));
                     produced += 1;
                 }
-                for over in [1u32, 2, 7, 8, 15, 16] {
+                for over in if hd < (1 << 20) { vec![1u32, 2, 7, 8, 15, 16] } else { vec![1u32, 16, 4096, (1 << 20) - (hd % (1 << 20))] } {
                     let mut q = p.clone();
                     q.push(Sym::M(hd + over, 3));
                     items.push((q, hd));
